@@ -53,12 +53,16 @@ def make_handler(world, kind):
 
 class World:
     def __init__(self, pools, handler='strict', identifier='supervisor', names='unique'):
-        """pools: [(name, buffer_size, n_listeners, [EventTypes member names])]"""
+        """pools: [(name, buffer_size, n_listeners, [EventTypes member names])] -- one *slot* per configured pool; a
+        fifth element 'absent' marks a pool that is configured but not in the daemon at the start (it is added at run
+        time by the operation `add <slot>`; a pool that is removed and added again is a new object: a new slot, possibly
+        of the same name).  The pools live in the `process_groups` of a real Supervisor; `remove <slot>` / `add <slot>`
+        are its real remove_process_group / add_process_group."""
         import supervisor.process as sp
-        from supervisor import events, states
-        from supervisor.tests.base import DummyOptions, DummyPConfig, DummyPGroupConfig, DummyLogger
-        from supervisor.options import EventListenerConfig
-        from supervisor.process import Subprocess, EventListenerPool
+        from supervisor import events, states, supervisord
+        from supervisor.tests.base import DummyOptions, DummyPConfig, DummyLogger
+        from supervisor.options import EventListenerConfig, EventListenerPoolConfig
+        from supervisor.process import Subprocess
         from supervisor.compat import as_bytes
         world = self
         # handler may carry a logging mode: 'strict+log' (the listener has a stdout_logfile) or 'strict+strip'
@@ -138,12 +142,20 @@ class World:
             def error(lg, msg, **kw):
                 # an error-level activity-log entry: which pool, which serial (no reliance on the wording)
                 nums = re.findall(r'\d+', msg.split('discarding')[-1]) if 'discarding' in msg else re.findall(r'\d+', msg)
-                pi = next((i for i, n in enumerate(world.pool_names) if n in msg), -1)
+                # the slot of the pool named in the entry: among slots of that name, the one that is in process_groups
+                toks = re.split(r'[^\w.-]+', msg)
+                cands = [i for i, n in enumerate(world.pool_names) if n in toks] or \
+                    [i for i, n in enumerate(world.pool_names) if n in msg]
+                live = [i for i in cands if world.active(i)]
+                pi = (live or cands or [-1])[0]
                 world.trace.append('discard:%d:%s' % (pi, nums[-1] if nums else '?'))
         self.pool_options.logger = PoolLogger()
-        self.pools, self.listeners = [], []
+        self.pools, self.listeners, self.cfgs, self.used = [], [], [], []
+        self.sup = supervisord.Supervisor(self.pool_options)
         handler_fn = make_handler(self, handler)
-        for (name, bufsize, nl, types_) in pools:
+        for spec in pools:
+            (name, bufsize, nl, types_) = spec[:4]
+            absent = len(spec) > 4 and spec[4] == 'absent'
             pcs = []
             for j in range(nl):
                 o = FakeOS()
@@ -153,13 +165,20 @@ class World:
                 c = Cfg(o, ('l%d' % j) if names == 'shared' else '%s_l%d' % (name, j), '/bin/cat', autostart=False, autorestart=False,
                         startsecs=0, exitcodes=(0,), stdout_logfile='/dev/null' if logmode else None)
                 pcs.append(c)
-            g = DummyPGroupConfig(self.pool_options, name, pconfigs=pcs)
-            g.buffer_size = bufsize
-            g.pool_events = [getattr(events.EventTypes, t) for t in types_]
-            g.result_handler = handler_fn
-            pool = EventListenerPool(g)
-            self.pools.append(pool)
-            self.listeners.append([pool.processes[c.name] for c in pcs])
+            g = EventListenerPoolConfig(self.pool_options, name, 999, pcs, bufsize,
+                                        [getattr(events.EventTypes, t) for t in types_], handler_fn)
+            self.cfgs.append(g)
+            if absent:
+                self.pools.append(None)
+                self.listeners.append([])
+                self.used.append(False)
+            else:
+                # a pool of the start-up configuration: created (and subscribed) in configuration order
+                pool = g.make_group()
+                self.sup.process_groups[name] = pool
+                self.pools.append(pool)
+                self.listeners.append([pool.processes[c.name] for c in pcs])
+                self.used.append(True)
 
     # ---- observation ---------------------------------------------------------------------
     def _see_event(self, event):
@@ -190,6 +209,35 @@ class World:
     def proc(self, pi, li):
         return self.listeners[pi][li]
 
+    def active(self, pi):
+        """the pool of slot `pi` is in supervisord.process_groups"""
+        pool = self.pools[pi] if 0 <= pi < len(self.pools) else None
+        return pool is not None and self.sup.process_groups.get(self.pool_names[pi]) is pool
+
+    # ---- pools removed / added while the daemon runs ---------------------------------------
+    def remove(self, pi):
+        """the real Supervisor.remove_process_group(name); the answer is appended to the observations"""
+        res = []
+        outs, err = self.run(lambda: res.append(self.sup.remove_process_group(self.pool_names[pi])))
+        ans = 'res:%s' % ('none' if not res else 'true' if res[0] is True else 'false' if res[0] is False else repr(res[0]))
+        self.full_trace.append(ans)
+        return outs + [ans], err
+
+    def add(self, pi):
+        """the real Supervisor.add_process_group(config) for the pool configured in slot `pi`"""
+        res = []
+        name = self.pool_names[pi]
+        before = self.sup.process_groups.get(name)
+        outs, err = self.run(lambda: res.append(self.sup.add_process_group(self.cfgs[pi])))
+        pool = self.sup.process_groups.get(name)
+        if pool is not None and pool is not before:
+            self.pools[pi] = pool
+            self.listeners[pi] = [pool.processes[c.name] for c in self.cfgs[pi].process_configs]
+            self.used[pi] = True
+        ans = 'res:%s' % ('none' if not res else 'true' if res[0] is True else 'false' if res[0] is False else repr(res[0]))
+        self.full_trace.append(ans)
+        return outs + [ans], err
+
     def stdout_disp(self, p):
         fd = p.pipes.get('stdout') if p.pipes else None
         return p.dispatchers.get(fd) if fd is not None else None
@@ -202,6 +250,13 @@ class World:
         """run one operation on the implementation; returns (outs list, error name or '-')"""
         self.trace = []
         err = '-'
+        # the harness' own observers must stay subscribed whatever the code under test does to the registry
+        # -- and come first, so that the 'ev:' marker of an event precedes what the pools do with it
+        cbs = self.events.callbacks
+        mine = [(self.events.Event, self._see_event), (self.events.EventRejectedEvent, self._see_rejected)]
+        if len(cbs) < 2 or any(not (a[0] is b[0] and a[1] == b[1]) for a, b in zip(cbs[:2], mine)):
+            rest = [(t, c) for t, c in cbs if not any(t is mt and c == mc for mt, mc in mine)]
+            cbs[:] = mine + rest
         try:
             fn()
         except RecursionError:
@@ -458,6 +513,22 @@ def exec_op(w, pools, op):
     """run one operation line on World `w`; returns (canonical op line or None when it does not apply, outs, err).
     The canonical line of die / spawn carries the payload of the PROCESS_STATE event the real code emits."""
     t = op.split()
+    if t[0] == 'remove':
+        # only a pool that is in process_groups can be removed (the RPC layer answers BAD_NAME otherwise)
+        if not w.active(int(t[1])):
+            return None, [], '-'
+        outs, err = w.remove(int(t[1]))
+        return op, outs, err
+    if t[0] == 'add':
+        pi = int(t[1])
+        # a slot is used once (a pool added again is a new slot); a name that is in the table under another slot is refused
+        # by the real code without looking at the slot -- not an operation of this world
+        if not w.active(pi) and (w.used[pi] or w.pool_names[pi] in w.sup.process_groups):
+            return None, [], '-'
+        outs, err = w.add(pi)
+        return op, outs, err
+    if t[0] != 'notify' and not w.active(int(t[1])):
+        return None, [], '-'          # a pool that is not in process_groups has no processes, is not transitioned ...
     if t[0] == 'notify':
         outs, err = w.notify(t[1], bytes.fromhex(t[2]).decode() if t[2] != '-' else '')
     elif t[0] == 'transition':
@@ -500,6 +571,12 @@ def exec_op(w, pools, op):
     return op, outs, err
 
 
+def pools_spec(pools):
+    """the pools= field of a `case pool` line; a fifth element 'absent' marks a pool that is added at run time"""
+    return ','.join('%s:%d:%d:%s%s' % (p[0], p[1], p[2], '+'.join(p[3]), ':absent' if len(p) > 4 and p[4] == 'absent' else '')
+                    for p in pools)
+
+
 class PoolHistory:
     """A history over several real pools (World) recorded operation by operation: canonical op lines and observable
     lines (for the correspondence with Model/Pool.lean) plus, per operation, what each property's monitors need:
@@ -507,7 +584,8 @@ class PoolHistory:
     and after, and the outs.  No property-specific judgement is made here."""
 
     def __init__(self, handler, pools, names='unique'):
-        self.handler, self.pools, self.names = handler, pools, names
+        self.handler, self.spec, self.names = handler, pools, names
+        self.pools = [tuple(p[:4]) for p in pools]
         self.w = World(pools, handler=handler, names=names)
         self.ops, self.lines, self.steps = [], [], []
         self.pid = 500
@@ -525,7 +603,7 @@ class PoolHistory:
             return None
         emitted = [(evid, w.events.getEventNameByType(type(w.evobjs[evid]))) for evid in range(ev0, w.next_ev)]
         step = {'op': cop, 'outs': outs, 'err': err, 'before': before, 'after': self.snapshot(), 'emitted': emitted,
-                'sent': []}
+                'sent': [], 'live': [w.active(pi) for pi in range(len(w.pools))]}
         for o in outs:
             f = o.split(':')
             if f[0] == 'ls' and f[2] == 'READY>BUSY':
@@ -541,6 +619,8 @@ class PoolHistory:
         w = self.w
         ready, ok = b'READY\n'.hex(), b'RESULT 2\nOK'.hex()
         for pi, ls in enumerate(w.listeners):
+            if not w.active(pi):
+                continue
             for li in range(len(ls)):
                 if w.proc(pi, li).pid:
                     self.do('die %d %d - x' % (pi, li))
@@ -549,6 +629,8 @@ class PoolHistory:
             self.do('pstate %d 0 running' % pi)
         for _ in range(2):
             for pi in range(len(w.listeners)):
+                if not w.active(pi):
+                    continue
                 for _ in range(rounds):
                     if w.lstate(pi, 0)[0] == 'ACKNOWLEDGED':
                         self.do('read %d 0 %s' % (pi, ready))
@@ -558,9 +640,8 @@ class PoolHistory:
                     self.do('read %d 0 %s' % (pi, ok))
 
     def case_line(self):
-        spec = ','.join('%s:%d:%d:%s' % (n, b, l, '+'.join(t)) for n, b, l, t in self.pools)
-        return 'case pool handler=%s names=%s pools=%s' % (self.handler, self.names, spec)
+        return 'case pool handler=%s names=%s pools=%s' % (self.handler, self.names, pools_spec(self.spec))
 
     def stdin_streams(self, pi, li):
-        o = self.w.proc(pi, li).config.options
+        o = self.w.cfgs[pi].process_configs[li].options       # (a pool that never joined the daemon received nothing)
         return o.accepted_all + [o.accepted]
